@@ -181,8 +181,12 @@ class C15(Property):
                 return "configured peer no longer re-dialled at the end of the run"
             return None
         if " X.9995 " in line:
-            # restart family: once both ends hold each other again after the restart, nobody drops anybody
+            # restart family.  The property speaks of stable membership: the announcement that was already scheduled when the peer came back
+            # with its shorter timeout was scheduled for the OLD membership (at most 90 s ahead) and may come too late once; from the
+            # next scheduling on the new timeout counts.  So: once both ends hold each other again AND one old interval (90 s + 2) has
+            # passed since the restart, nobody drops anybody.
             k = ops.index("X.9995")
+            t_restart = int([o for o in ops[:k] if o.startswith("T.")][-1][2:])
             now, formed, have = 1, False, {1: False, 2: False}
             for o, r in list(zip(ops, outs))[k:]:
                 if o.startswith("T."):
@@ -192,7 +196,7 @@ class C15(Property):
                     d = nu.parse_dump(r)
                     have[me] = any(int(p[0]) == 3 - me for p in d["peers_l"])
                     if have[1] and have[2]:
-                        formed = True
+                        formed = formed or now >= t_restart + 92
                     elif formed and not have[me]:
                         return ("at t=%d node %d has timed out its healthy peer %d (which restarted with a shorter timeout and re-connected): "
                                 "announcements must come within the smallest timeout a current peer advertised") % (now, me, 3 - me)
